@@ -28,6 +28,14 @@ theorem scratch_copy_used :
     ∧ (inputWrites.filter (fun w => w.func == "objectValidator.validatePatternProperty" && w.expr == "deref *schema")).all
       (fun w => w.target == "local-borrowed") = true := by decide
 
+/-- the default and example stages walk *copies* of the caller's definitions: judging a value builds a schema
+    validator, which expands the `$ref` below the schema in place (`documentedExpansion`), and that must not
+    happen in the document being validated (fixed defect C12-definition-refs-expanded-in-document) -/
+theorem definitions_walked_on_copies :
+    definitionWalks.all (fun w => w.2.2) = true
+    ∧ (definitionWalks.map (·.1)).contains "defaultValidator.validateDefaultValueValidAgainstSchema" = true
+    ∧ (definitionWalks.map (·.1)).contains "exampleValidator.validateExampleValueValidAgainstSchema" = true := by decide
+
 /-- non-vacuity: the table is not empty and does contain the scratch-copy writes -/
 example : inputWrites.length > 20 := by decide
 example : (inputWrites.filter (fun w => w.target == "local-borrowed")).length = 2 := by decide
